@@ -138,8 +138,8 @@ let () =
                       Buffer.add_string b "A";
                       List.iter (fun t -> Buffer.add_string b " ; "; show b t) l;
                       print_string (Buffer.contents b ^ "\n")
-           | OutOfFuel -> print_string "OUTOFFUEL\n"
-           | Floundered -> print_string "FLOUNDERED\n")
+           | Floundered -> print_string "FLOUNDERED\n"
+           | _ -> print_string "OUTOFFUEL\n")
       | _ -> failwith "request"
     done
   with End_of_file -> ()
